@@ -162,19 +162,19 @@ theorem shl1_eq_loop (L : Nat) (a : List (BitVec 64)) :
 
 /-! ## `Uint::shr1_with_carry`, `Uint::shr1` -/
 
-theorem shr1_loop_zero (a : List (BitVec 64)) (ret : List (BitVec 64)) (c : BitVec 64) :
-    Uint.shr1_with_carry_loop1 a 0 ret c = (ret, c) := by
+theorem shr1_loop_zero (L : Nat) (a : List (BitVec 64)) (ret : List (BitVec 64)) (c : BitVec 64) :
+    Uint.shr1_with_carry_loop1 L a 0 ret c = (ret, c) := by
   rw [Uint.shr1_with_carry_loop1]
 
-theorem shr1_loop_succ (a : List (BitVec 64)) (n : Nat) (ret : List (BitVec 64)) (c : BitVec 64) :
-    Uint.shr1_with_carry_loop1 a (n + 1) ret c =
-      Uint.shr1_with_carry_loop1 a n (ret.set n ((Limb.shr1 (a.getD n 0#64)).1 ||| c)) (Limb.shr1 (a.getD n 0#64)).2 := by
+theorem shr1_loop_succ (L : Nat) (a : List (BitVec 64)) (n : Nat) (ret : List (BitVec 64)) (c : BitVec 64) :
+    Uint.shr1_with_carry_loop1 L a (n + 1) ret c =
+      Uint.shr1_with_carry_loop1 L a n (ret.set n ((Limb.shr1 (a.getD n 0#64)).1 ||| c)) (Limb.shr1 (a.getD n 0#64)).2 := by
   rw [Uint.shr1_with_carry_loop1] <;> shift_round_eq
 
 theorem shr1_with_carry_eq_loop (L : Nat) (a : List (BitVec 64)) :
     Uint.shr1_with_carry L a =
-      ((Uint.shr1_with_carry_loop1 a L (List.replicate L 0#64) 0#64).1,
-       Choice.from_word_lsb ((Uint.shr1_with_carry_loop1 a L (List.replicate L 0#64) 0#64).2 >>> 63)) := by
+      ((Uint.shr1_with_carry_loop1 L a L (List.replicate L 0#64) 0#64).1,
+       Choice.from_word_lsb ((Uint.shr1_with_carry_loop1 L a L (List.replicate L 0#64) 0#64).2 >>> 63)) := by
   shift_round_eq
 
 theorem shr1_eq (L : Nat) (a : List (BitVec 64)) : Uint.shr1 L a = (Uint.shr1_with_carry L a).1 := by
@@ -251,13 +251,13 @@ theorem shrv_loop1_succ (L : Nat) (a : List (BitVec 64)) (k n i : Nat) (limbs : 
       Uint.overflowing_shr_vartime_loop1 L a k n (i + 1) (limbs.set i (a.getD (i + k) 0#64)) := by
   rw [Uint.overflowing_shr_vartime_loop1, if_pos h] <;> shift_round_eq
 
-theorem shrv_loop2_zero (rem : BitVec 32) (limbs : List (BitVec 64)) (c : BitVec 64) :
-    Uint.overflowing_shr_vartime_loop2 rem 0 limbs c = (limbs, c) := by
+theorem shrv_loop2_zero (L : Nat) (rem : BitVec 32) (limbs : List (BitVec 64)) (c : BitVec 64) :
+    Uint.overflowing_shr_vartime_loop2 L rem 0 limbs c = (limbs, c) := by
   rw [Uint.overflowing_shr_vartime_loop2]
 
-theorem shrv_loop2_succ (rem : BitVec 32) (n : Nat) (limbs : List (BitVec 64)) (c : BitVec 64) :
-    Uint.overflowing_shr_vartime_loop2 rem (n + 1) limbs c =
-      Uint.overflowing_shr_vartime_loop2 rem n
+theorem shrv_loop2_succ (L : Nat) (rem : BitVec 32) (n : Nat) (limbs : List (BitVec 64)) (c : BitVec 64) :
+    Uint.overflowing_shr_vartime_loop2 L rem (n + 1) limbs c =
+      Uint.overflowing_shr_vartime_loop2 L rem n
         (limbs.set n (((limbs.getD n 0#64) >>> (rem % 64#32)) ||| c)) ((limbs.getD n 0#64) <<< ((64#32 - rem) % 64#32)) := by
   rw [Uint.overflowing_shr_vartime_loop2] <;> shift_round_eq
 
@@ -267,9 +267,136 @@ theorem shrv_eq (L : Nat) (a : List (BitVec 64)) (s : BitVec 32) :
       if s % 64#32 = 0#32 then
         (Uint.overflowing_shr_vartime_loop1 L a (s / 64#32).toNat (L - (s / 64#32).toNat) 0 (List.replicate L 0#64), ~~~0#64)
       else
-        ((Uint.overflowing_shr_vartime_loop2 (s % 64#32) (L - (s / 64#32).toNat)
+        ((Uint.overflowing_shr_vartime_loop2 L (s % 64#32) (L - (s / 64#32).toNat)
           (Uint.overflowing_shr_vartime_loop1 L a (s / 64#32).toNat (L - (s / 64#32).toNat) 0 (List.replicate L 0#64))
           0#64).1, ~~~0#64) := by
   simp only [Uint.overflowing_shr_vartime, decide_eq_true_eq, beq_iff_eq] <;> shift_congr 8
+
+/-! ## `Limb::select`, `Uint::select` (src/limb/cmp.rs, src/uint/cmp.rs; used by the ladder and by `unwrap_or`) -/
+
+theorem limb_select_meaning (a b c : BitVec 64) : Limb.select a b c = a ^^^ (c &&& (a ^^^ b)) := by
+  shift_round_eq
+
+theorem select_loop_zero (L : Nat) (a b : List (BitVec 64)) (c : BitVec 64) (i : Nat) (limbs : List (BitVec 64)) :
+    Uint.select_loop1 L a b c 0 i limbs = limbs := by
+  rw [Uint.select_loop1]
+
+theorem select_loop_succ (L : Nat) (a b : List (BitVec 64)) (c : BitVec 64) (n i : Nat) (limbs : List (BitVec 64))
+    (h : i < L) :
+    Uint.select_loop1 L a b c (n + 1) i limbs =
+      Uint.select_loop1 L a b c n (i + 1)
+        (limbs.set i ((a.getD i 0#64) ^^^ (c &&& ((a.getD i 0#64) ^^^ (b.getD i 0#64))))) := by
+  rw [Uint.select_loop1, if_pos h] <;> shift_round_eq
+
+theorem select_eq_loop (L : Nat) (a b : List (BitVec 64)) (c : BitVec 64) :
+    Uint.select L a b c = Uint.select_loop1 L a b c L 0 (List.replicate L 0#64) := by
+  shift_round_eq
+
+/-! ## the constant-time ladder `Uint::overflowing_shl` / `overflowing_shr` -/
+
+theorem oshl_loop_zero (L : Nat) (sh sb : BitVec 32) (i : Nat) (r : List (BitVec 64)) :
+    Uint.overflowing_shl_loop1 L sh sb 0 i r = r := by
+  rw [Uint.overflowing_shl_loop1]
+
+/-- one round: select between the running value and its shift by `1 << i`, on bit `i` of the (reduced) shift; the inner
+    `.expect(..)` of the source is the value component (that it cannot fail is proved on the model, GenShiftsLadder.lean) -/
+theorem oshl_loop_succ (L : Nat) (sh sb : BitVec 32) (n i : Nat) (r : List (BitVec 64)) (h : i < sb.toNat) :
+    Uint.overflowing_shl_loop1 L sh sb (n + 1) i r =
+      Uint.overflowing_shl_loop1 L sh sb n (i + 1)
+        (Uint.select L r (Uint.overflowing_shl_vartime L r (1#32 <<< (i % 32))).1
+          (Choice.from_u32_lsb ((sh >>> (i % 32)) &&& 1#32))) := by
+  rw [Uint.overflowing_shl_loop1, if_pos h] <;> shift_congr 6
+
+theorem oshl_eq (L : Nat) (a : List (BitVec 64)) (s : BitVec 32) :
+    Uint.overflowing_shl L a s =
+      (Uint.select L
+        (Uint.overflowing_shl_loop1 L (s % BitVec.ofNat 32 (64 * L)) (32#32 - BitVec.clz (BitVec.ofNat 32 (64 * L) - 1#32))
+          (32#32 - BitVec.clz (BitVec.ofNat 32 (64 * L) - 1#32)).toNat 0 a)
+        (List.replicate L 0#64) (~~~(Choice.from_u32_lt s (BitVec.ofNat 32 (64 * L)))),
+       Choice.from_u32_lt s (BitVec.ofNat 32 (64 * L))) := by
+  simp only [Uint.overflowing_shl, Choice.not] <;> shift_congr 8
+
+theorem oshr_loop_zero (L : Nat) (sh sb : BitVec 32) (i : Nat) (r : List (BitVec 64)) :
+    Uint.overflowing_shr_loop1 L sh sb 0 i r = r := by
+  rw [Uint.overflowing_shr_loop1]
+
+theorem oshr_loop_succ (L : Nat) (sh sb : BitVec 32) (n i : Nat) (r : List (BitVec 64)) (h : i < sb.toNat) :
+    Uint.overflowing_shr_loop1 L sh sb (n + 1) i r =
+      Uint.overflowing_shr_loop1 L sh sb n (i + 1)
+        (Uint.select L r (Uint.overflowing_shr_vartime L r (1#32 <<< (i % 32))).1
+          (Choice.from_u32_lsb ((sh >>> (i % 32)) &&& 1#32))) := by
+  rw [Uint.overflowing_shr_loop1, if_pos h] <;> shift_congr 6
+
+theorem oshr_eq (L : Nat) (a : List (BitVec 64)) (s : BitVec 32) :
+    Uint.overflowing_shr L a s =
+      (Uint.select L
+        (Uint.overflowing_shr_loop1 L (s % BitVec.ofNat 32 (64 * L)) (32#32 - BitVec.clz (BitVec.ofNat 32 (64 * L) - 1#32))
+          (32#32 - BitVec.clz (BitVec.ofNat 32 (64 * L) - 1#32)).toNat 0 a)
+        (List.replicate L 0#64) (~~~(Choice.from_u32_lt s (BitVec.ofNat 32 (64 * L)))),
+       Choice.from_u32_lt s (BitVec.ofNat 32 (64 * L))) := by
+  simp only [Uint.overflowing_shr, Choice.not] <;> shift_congr 8
+
+/-! ## the thin wrappers (`expect` = the value, `unwrap_or(def)` = `Uint::select(&def, &value, is_some)`) -/
+
+theorem shl_vartime_eq (L : Nat) (a : List (BitVec 64)) (s : BitVec 32) :
+    Uint.shl_vartime L a s = (Uint.overflowing_shl_vartime L a s).1 := by
+  simp only [Uint.shl_vartime] <;> shift_congr 4
+theorem shr_vartime_eq (L : Nat) (a : List (BitVec 64)) (s : BitVec 32) :
+    Uint.shr_vartime L a s = (Uint.overflowing_shr_vartime L a s).1 := by
+  simp only [Uint.shr_vartime] <;> shift_congr 4
+theorem shl_eq (L : Nat) (a : List (BitVec 64)) (s : BitVec 32) :
+    Uint.shl L a s = (Uint.overflowing_shl L a s).1 := by
+  simp only [Uint.shl] <;> shift_congr 4
+theorem shr_eq (L : Nat) (a : List (BitVec 64)) (s : BitVec 32) :
+    Uint.shr L a s = (Uint.overflowing_shr L a s).1 := by
+  simp only [Uint.shr] <;> shift_congr 4
+theorem wrapping_shl_vartime_eq (L : Nat) (a : List (BitVec 64)) (s : BitVec 32) :
+    Uint.wrapping_shl_vartime L a s =
+      Uint.select L (List.replicate L 0#64) (Uint.overflowing_shl_vartime L a s).1 (Uint.overflowing_shl_vartime L a s).2 := by
+  simp only [Uint.wrapping_shl_vartime] <;> shift_congr 4
+theorem wrapping_shr_vartime_eq (L : Nat) (a : List (BitVec 64)) (s : BitVec 32) :
+    Uint.wrapping_shr_vartime L a s =
+      Uint.select L (List.replicate L 0#64) (Uint.overflowing_shr_vartime L a s).1 (Uint.overflowing_shr_vartime L a s).2 := by
+  simp only [Uint.wrapping_shr_vartime] <;> shift_congr 4
+theorem wrapping_shl_eq (L : Nat) (a : List (BitVec 64)) (s : BitVec 32) :
+    Uint.wrapping_shl L a s =
+      Uint.select L (List.replicate L 0#64) (Uint.overflowing_shl L a s).1 (Uint.overflowing_shl L a s).2 := by
+  simp only [Uint.wrapping_shl] <;> shift_congr 4
+theorem wrapping_shr_eq (L : Nat) (a : List (BitVec 64)) (s : BitVec 32) :
+    Uint.wrapping_shr L a s =
+      Uint.select L (List.replicate L 0#64) (Uint.overflowing_shr L a s).1 (Uint.overflowing_shr L a s).2 := by
+  simp only [Uint.wrapping_shr] <;> shift_congr 4
+
+/-! ## `u32` facts for the ladder -/
+
+/-- `u32::leading_zeros` (`BitVec.clz` at width 32) is the model's `u32lz` -/
+theorem u32lz_bv (x : BitVec 32) : u32lz x.toNat = (BitVec.clz x).toNat := by
+  by_cases h0 : x = 0#32
+  · subst h0; decide
+  · have hx : x.toNat ≠ 0 := fun h => h0 (BitVec.eq_of_toNat_eq (by simpa using h))
+    have hlt : (BitVec.clz x).toNat < 32 := by
+      have := (BitVec.clz_lt_iff_ne_zero (x := x)).mpr h0
+      simpa [BitVec.lt_def] using this
+    have h1 := BitVec.two_pow_sub_clz_le_toNat_of_ne_zero (x := x) (by decide) h0
+    have h2 := BitVec.toNat_lt_two_pow_sub_clz (x := x)
+    have hl : Nat.log2 x.toNat = 31 - (BitVec.clz x).toNat := by
+      rw [Nat.log2_eq_iff hx]
+      refine ⟨h1, ?_⟩
+      have e : 31 - (BitVec.clz x).toNat + 1 = 32 - (BitVec.clz x).toNat := by omega
+      rw [e]; exact h2
+    simp only [u32lz, bitlen, hx, if_false, hl]
+    omega
+
+theorem fromU32Lt_bridge (x y : BitVec 32) : fromU32Lt x.toNat y.toNat = (Choice.from_u32_lt x y).toNat := by
+  rw [fromU32Lt_spec x.isLt y.isLt, from_u32_lt_meaning, ofBool_toNat]
+  simp only [BitVec.lt_def]
+
+theorem fromU32Lsb_bridge (x : BitVec 32) : fromU32Lsb x.toNat = (Choice.from_u32_lsb x).toNat := by
+  have e : Choice.from_u32_lsb x = -(x.setWidth 64) := by simp only [gen_defs] <;> bv_decide
+  have h : x.toNat < 2 ^ 64 := Nat.lt_trans x.isLt (by decide)
+  rw [e, fromU32Lsb, ← wneg_bv, BitVec.toNat_setWidth, Nat.mod_eq_of_lt h]
+
+theorem choiceNot_bridge' (x : BitVec 64) : choiceNot x.toNat = (~~~x).toNat := by
+  rw [choiceNot, wnot_bv]
 
 end CB.GenBits
